@@ -6,6 +6,7 @@ import (
 	"fmt"
 	"io"
 	"net/http"
+	"net/url"
 	"sort"
 	"strconv"
 	"strings"
@@ -196,6 +197,11 @@ func genExchange(t *simrt.Tape, i int, redirects int) *exchange {
 	x := &exchange{}
 	x.target.Method = xMethods[t.Biased(len(xMethods), 1, 2)]
 	x.target.URL = fmt.Sprintf("http://sim%d.test/x%d/a/%d?q=%d", t.Choose(3), i, t.Choose(100), t.Choose(10))
+	if t.Prob(1, 6) {
+		// spellings that net/url accepts and writes back differently: the result keeps the target's own text,
+		// the request carries the parsed URL
+		x.target.URL = fmt.Sprintf([]string{"HTTP://sim1.test/x%d/Upper", "http://sim2.test/x%d/a|b^c", "http://sim0.test/x%d/sp ace", "http://sim1.test/x%d/frag#", "http://sim1.test/x%d/\u00e9t\u00e9?q=\u00e9", "http://SIM2.test:80/x%d/host"}[t.Choose(6)], i)
+	}
 	if t.Prob(1, 25) {
 		x.badURL = true
 		x.target.URL = []string{"http://[::1/x", "%zz://bad", "http://sim.test/x\x7f"}[t.Choose(3)]
@@ -437,7 +443,11 @@ func checkExchange(fail func(string, string, ...any), stats map[string]int, log 
 	if q.method != x.target.Method {
 		fail("C06.req-method", "request method %q, target method %q", q.method, x.target.Method)
 	}
-	if q.url != x.target.URL {
+	wantURL := x.target.URL
+	if u, err := url.Parse(x.target.URL); err == nil {
+		wantURL = u.String() // the URL as net/url spells what the target says
+	}
+	if q.url != wantURL {
 		fail("C06.req-url", "request URL %q, target URL %q", q.url, x.target.URL)
 	}
 	if !bytes.Equal(q.body, x.target.Body) {
